@@ -118,3 +118,85 @@ pub fn short(s: &str, n: usize) -> String {
     }
     out.replace('\n', "\\n").replace('\r', "\\r")
 }
+
+/// Watchdog over calls into the code under test. A call that does not return is a finding (the property
+/// of C04, and for every other check an input on which the implementation does not answer): the check
+/// must report it and stop instead of waiting for ever. Threads cannot be killed, so the process reports
+/// the input of the stuck call as a violation, writes a replay file and a minimal evidence file, and exits 1.
+pub mod watch {
+    use std::cell::Cell;
+    use std::collections::HashMap;
+    use std::sync::atomic::{AtomicU64, Ordering};
+    use std::sync::{Mutex, OnceLock};
+    use std::thread::ThreadId;
+    use std::time::{Duration, Instant};
+
+    pub static ENTERED: AtomicU64 = AtomicU64::new(0);
+    static SLOTS: OnceLock<Mutex<HashMap<ThreadId, (Instant, String)>>> = OnceLock::new();
+    thread_local! {
+        static DEPTH: Cell<u32> = const { Cell::new(0) };
+    }
+
+    fn slots() -> &'static Mutex<HashMap<ThreadId, (Instant, String)>> {
+        SLOTS.get_or_init(|| Mutex::new(HashMap::new()))
+    }
+
+    pub struct Guard;
+
+    impl Drop for Guard {
+        fn drop(&mut self) {
+            let d = DEPTH.with(|c| {
+                c.set(c.get() - 1);
+                c.get()
+            });
+            if d == 0 {
+                if let Ok(mut m) = slots().lock() {
+                    m.remove(&std::thread::current().id());
+                }
+            }
+        }
+    }
+
+    /// Marks the calling thread as being inside the code under test with this input (outermost call only).
+    pub fn enter(text: &str) -> Guard {
+        let d = DEPTH.with(|c| {
+            c.set(c.get() + 1);
+            c.get()
+        });
+        if d == 1 {
+            ENTERED.fetch_add(1, Ordering::Relaxed);
+            let keep: String = if text.len() > 6000 { text.chars().take(6000).collect() } else { text.to_string() };
+            if let Ok(mut m) = slots().lock() {
+                m.insert(std::thread::current().id(), (Instant::now(), keep));
+            }
+        }
+        Guard
+    }
+
+    /// Starts the watchdog thread of a check run.
+    pub fn start(prop: String, tier: &'static str, limit: Duration) {
+        std::thread::spawn(move || loop {
+            std::thread::sleep(Duration::from_millis(500));
+            let stuck: Option<(f64, String)> = slots().lock().ok().and_then(|m| m.values().filter(|(t, _)| t.elapsed() > limit).map(|(t, s)| (t.elapsed().as_secs_f64(), s.clone())).next());
+            if let Some((secs, text)) = stuck {
+                let root = crate::report::verif_root();
+                let dir = root.join("replays").join(&prop);
+                let _ = std::fs::create_dir_all(&dir);
+                let path = dir.join(format!("hang-{}.json", super::hex_hash(&text)));
+                let what = format!("a call into the implementation has not returned after {:.0} s on the input {:?}", secs, super::short(&text, 300));
+                let body = serde_json::json!({"property": prop, "key": "no-answer/call-does-not-return", "what": what, "case": {"mode": "hang", "text": text}});
+                let _ = std::fs::write(&path, serde_json::to_string_pretty(&body).unwrap());
+                let ev = serde_json::json!({
+                    "property_id": prop, "tier": tier, "seed": 1, "level": "model_checking",
+                    "coverage": {"states": 1, "transitions": 1, "traces_validated_against_impl": 0, "evaluations": ENTERED.load(Ordering::Relaxed), "distinct_nontrivial": 0,
+                        "rule": "run stopped by the watchdog: a call into the implementation did not return; the counts are the calls entered until then", "exhaustive": false, "samples": [text]},
+                    "wall_s": secs, "violations": 1
+                });
+                let _ = std::fs::create_dir_all(root.join("evidence"));
+                let _ = std::fs::write(root.join("evidence").join(format!("{}.json", prop)), serde_json::to_string_pretty(&ev).unwrap());
+                println!("VIOLATION property={} replay={} key=no-answer/call-does-not-return cases=1 :: {}", prop, path.display(), what);
+                std::process::exit(1);
+            }
+        });
+    }
+}
